@@ -319,8 +319,34 @@ def nelua_build(src, out, extra=(), cache_dir=None, timeout=900, interp=None):
 # Coq
 # --------------------------------------------------------------------------
 
+def _repo_suffix():
+    return "" if REPO == "/repo" else "@" + hashlib.sha1(os.path.abspath(REPO).encode()).hexdigest()[:10]
+
+
+def coq_root():
+    """Directory holding the Coq sub-projects for this run.  Runs against /repo use /verif/coq itself;
+    runs against another REPO (seeded changes, mutation tests) build in a private copy under .cache so
+    that they never rewrite the live Gen.v / .vo / drivers (tools/seedrun.py removes it afterwards)."""
+    if REPO == "/repo":
+        return os.path.join(VERIF, "coq")
+    return os.path.join(CACHE, "coq" + _repo_suffix())
+
+
 def coq_dir(pid):
-    return os.path.join(VERIF, "coq", pid)
+    root = coq_root()
+    d = os.path.join(root, pid)
+    live = os.path.join(VERIF, "coq")
+    if root != live and not os.path.isdir(d):
+        with Lock("coqcopy" + _repo_suffix()):
+            for sub in ("Base", pid):
+                dst = os.path.join(root, sub)
+                if not os.path.isdir(dst):
+                    os.makedirs(root, exist_ok=True)
+                    tmp = dst + ".tmp%d" % os.getpid()
+                    shutil.copytree(os.path.join(live, sub), tmp, symlinks=True,
+                                    ignore=shutil.ignore_patterns("_Eval_*", "*.tmp*"))
+                    os.rename(tmp, dst)
+    return d
 
 
 def _coq_make(d, jobs, timeout):
@@ -339,14 +365,14 @@ def coq_build(pid, jobs=None, timeout=3000):
     """Build coq/Base and then coq/<pid>. Returns (ok, log)."""
     jobs = jobs or NPROC
     logtxt = ""
-    with Lock("coq-Base"):
-        rc, l = _coq_make(os.path.join(VERIF, "coq", "Base"), jobs, timeout)
+    with Lock("coq-Base" + _repo_suffix()):
+        rc, l = _coq_make(coq_dir("Base"), jobs, timeout)
         logtxt += l
         if rc != 0:
             return False, logtxt
     if pid == "Base":
         return True, logtxt
-    with Lock("coq-" + pid):
+    with Lock("coq-" + pid + _repo_suffix()):
         rc, l = _coq_make(coq_dir(pid), jobs, timeout)
         logtxt += l
     return rc == 0, logtxt
@@ -374,7 +400,7 @@ def coq_properties(pid, fname="Properties.v", timeout=900):
     src = read(os.path.join(d, fname))
     names = [(m.group(1), m.group(2)) for m in THEOREM_RE.finditer(src)]
     printed = re.findall(r"Print Assumptions\s+([A-Za-z0-9_'.]+)\s*\.", src)
-    with Lock("coq-" + pid):
+    with Lock("coq-" + pid + _repo_suffix()):
         rc, out, err = sh(["coqc"] + coqproject_args(d) + [fname], cwd=d, timeout=timeout)
     res = {"ok": rc == 0, "log": (out + "\n" + err)[-6000:], "theorems": [], "missing_print": []}
     if rc != 0:
@@ -456,7 +482,7 @@ def ocaml_build(pid, driver="driver.ml", out="driver", model="model"):
     """Build the extracted model (coq/<pid>/model.ml, produced by Extract.v) with the driver."""
     d = coq_dir(pid)
     zu = os.path.join(VERIF, "ocaml", "zutil.ml")
-    with Lock("coq-" + pid):
+    with Lock("coq-" + pid + _repo_suffix()):
         shutil.copy(zu, os.path.join(d, "zutil.ml"))
         rc, o, e = sh(["ocamlfind", "ocamlopt", "-O3", "-w", "-a", "-package", "str", "-linkpkg", model + ".mli", model + ".ml",
                        "zutil.ml", driver, "-o", out], cwd=d, timeout=900)
@@ -529,7 +555,7 @@ class Ctx:
         self.interp = None
         # scratch/cache directory of this property; runs against another REPO (seeded changes,
         # mutation tests) get their own so they never prune or overwrite each other's artefacts
-        suffix = "" if REPO == "/repo" else "@" + hashlib.sha1(os.path.abspath(REPO).encode()).hexdigest()[:10]
+        suffix = _repo_suffix()
         self.work = os.path.join(CACHE, "work", pid + suffix)
         os.makedirs(self.work, exist_ok=True)
         self.known = [k for k in load_known(pid).get("findings", []) if k.get("property") == pid]
